@@ -3,7 +3,7 @@
    total order (C06_element_orders gives the two instances the checks run at). *)
 From Coq Require Import Sorting.Permutation Sorting.Sorted.
 From EsVerif.Common Require Import Base.
-From EsVerif.C06 Require Import Model Spec Lemmas MatchProofs DedupProofs Proofs Forms FormsProofs Skel Gen Tie PromoteProofs.
+From EsVerif.C06 Require Import Model Spec Lemmas MatchProofs DedupProofs Proofs Forms FormsProofs Skel Gen Tie PromoteProofs RoundProofs PromoteChar DedupMore History.
 Local Open Scope nat_scope.
 
 (* integers (and order-embedded floats) and code-point strings are total orders *)
@@ -337,4 +337,106 @@ Example C06_nonvacuous_round2b :
   /\ round53 (-18446744073709551615) = (-18446744073709551616)%Z /\ round53 9007199254740992 = 9007199254740992%Z
   /\ kf_mixed_sign_above_2p53 true [5; 9007199254740992]%Z [7; -3]%Z = false
   /\ match_z true false false [5; 9007199254740992]%Z [7; -3; 9007199254740992]%Z = Ok ([1], [2]).
+Proof. repeat split; vm_compute; reflexivity. Qed.
+
+(* ======================================================================================
+   Proof-deepening round.
+   ====================================================================================== *)
+
+(* --- the float64 promotion: round53 is monotone and odd (pure integer arithmetic) *)
+Theorem C06_round53_monotone : forall x y, (x <= y)%Z -> (round53 x <= round53 y)%Z.
+Proof. exact round53_mono. Qed.
+
+Theorem C06_round53_odd : forall x, round53 (- x) = (- round53 x)%Z.
+Proof. exact round53_neg. Qed.
+
+(* --- the promoted search characterised exactly, for ANY search order that never puts a probe above
+   an element >= it: always an answer, only equal pairs, ascending, and position j of a probe x that
+   occurs in the first array is reported IFF the search lands on x (the number of first-array
+   elements below x in the search order equals the number below x) *)
+Theorem C06_match_promoted_exact : forall A (sltb ltb eqb : A -> A -> bool), total_order ltb eqb ->
+  (forall m v, ltb m v = false -> sltb m v = false) ->
+  forall str st (a1 a2 : list A), NoDup a1 -> a1 <> [] -> a2 <> [] -> sorting_perm ltb st a1 ->
+  exists o view, gather a1 st = Some view
+    /\ match_with2 sltb ltb eqb str false st a1 a2 = Ok o
+    /\ Forall2 (fun i j => exists x, nth_error a1 i = Some x /\ nth_error a2 j = Some x) (fst o) (snd o)
+    /\ StronglySorted lt (snd o)
+    /\ (forall j x, nth_error a2 j = Some x -> In x a1 -> (In j (snd o) <-> hit A sltb ltb view x = true)).
+Proof. exact match_with2_char. Qed.
+
+(* --- mixed signedness at 64 bits, EXACTLY: match / match_multi always answer, never return an
+   unequal pair, report ascending positions, report a probe occurring in the first array iff no
+   smaller first-array element rounds to the same double; the full statement holds IFF no probe is
+   lost ([lost_b], decidable), and that condition lies inside the known class *)
+Theorem C06_match_mixed_exact : forall str (a1 a2 : list Z), NoDup a1 -> a1 <> [] -> a2 <> [] ->
+  exists o, match_z true str false a1 a2 = Ok o /\ match_multi_z true str true a1 a2 = Ok o
+    /\ Forall2 (fun i j => exists x, nth_error a1 i = Some x /\ nth_error a2 j = Some x) (fst o) (snd o)
+    /\ StronglySorted lt (snd o)
+    /\ (forall j x, nth_error a2 j = Some x -> In x a1 -> (In j (snd o) <-> collides_below a1 x = false))
+    /\ (match_ok a1 a2 o <-> lost_b a1 a2 = false).
+Proof. exact match_z_mixed_exact. Qed.
+
+Theorem C06_lost_inside_known_class : forall a1 a2,
+  lost_b a1 a2 = true -> kf_mixed_sign_above_2p53 true a1 a2 = true.
+Proof. exact lost_in_known_class. Qed.
+
+(* --- unique(values=True): strictly ascending, hence the same array for EVERY sorting permutation
+   numpy's argsort may return (the tie choice of argsort is invisible in the values) *)
+Theorem C06_unique_values_ascending : forall A (ltb eqb : A -> A -> bool), total_order ltb eqb ->
+  forall s (a : list A), a <> [] -> sorting_perm ltb s a ->
+  exists vals, unique_values_with eqb s a = Ok vals /\ values_ok a vals /\ strict_asc A ltb vals.
+Proof. exact unique_values_ascending. Qed.
+
+Theorem C06_unique_values_determined : forall A (ltb eqb : A -> A -> bool), total_order ltb eqb ->
+  forall s s' (a : list A), a <> [] -> sorting_perm ltb s a -> sorting_perm ltb s' a ->
+  unique_values_with eqb s a = unique_values_with eqb s' a.
+Proof. exact unique_values_determined. Qed.
+
+(* --- with the model's own argsort (verified: C06_argsort_contract) no sort contract is left *)
+Theorem C06_unique_own_sort : forall A (ltb eqb : A -> A -> bool), total_order ltb eqb ->
+  forall a : list A, a <> [] ->
+  exists keep vals, unique_with eqb (argsort ltb a) a = Ok keep /\ one_per_value a keep
+    /\ unique_values_with eqb (argsort ltb a) a = Ok vals /\ values_ok a vals /\ strict_asc A ltb vals.
+Proof. exact unique_own_sort. Qed.
+
+Theorem C06_rem_dup_own_sort : forall A (ltb eqb : A -> A -> bool), total_order ltb eqb ->
+  forall (a : list A) flag, a <> [] -> length flag = length a ->
+  exists keep, rem_dup_with eqb (argsort ltb a) a flag = Ok keep /\ rem_dup_ok a flag keep.
+Proof. exact rem_dup_own_sort. Qed.
+
+(* --- rem_dup sees only the ORDER of the flags: any strictly monotone re-encoding (unsigned or
+   extreme integers, the bit-pattern embedding of floats used by the harness) gives the same answer;
+   C06_rem_dup itself quantifies over ALL integer flags (Z is unbounded) *)
+Theorem C06_rem_dup_flag_order : forall A (eqb : A -> A -> bool) (h : Z -> Z) s (a : list A) flag,
+  (forall x y, (x < y)%Z <-> (h x < h y)%Z) ->
+  rem_dup_with eqb s a (map h flag) = rem_dup_with eqb s a flag.
+Proof. exact rem_dup_flag_order. Qed.
+
+(* --- history: the model is a state machine whose state is unit; the answer to a call in any
+   history is the answer to that call alone *)
+Theorem C06_history_independent : forall A (ltb eqb : A -> A -> bool) (h1 : list (call A)) c h2,
+  nth_error (run A ltb eqb tt (h1 ++ c :: h2)) (length h1) = Some (answer_of A ltb eqb c)
+  /\ run A ltb eqb tt [c] = [answer_of A ltb eqb c].
+Proof. exact run_independent. Qed.
+
+(* --- the statement order of `el = arr1[0]` and the emptiness guard is regenerated (mp_el_first):
+   it decides only the error class for an empty first array *)
+Theorem C06_skeleton_statement_order : forall A (ltb eqb : A -> A -> bool) k p st (a1 a2 : list A),
+  match_g ltb eqb ref_match k p st [] a2 = Err EIndex
+  /\ match_g ltb eqb ref_match_guard_first k p st [] a2 = Err EValue
+  /\ (a1 <> [] -> match_g ltb eqb ref_match_guard_first k p st a1 a2 = match_g ltb eqb ref_match k p st a1 a2).
+Proof. exact @skel_statement_order. Qed.
+
+Example C06_nonvacuous_deepening :
+  (* a lost probe: 2^53+1 in both arrays, 2^53 below it rounds to the same double *)
+  lost_b [9007199254740993; 9007199254740992]%Z [9007199254740993]%Z = true
+  /\ lost_b [9007199254740993; 5]%Z [9007199254740993; 9007199254740992]%Z = false
+  /\ kf_mixed_sign_above_2p53 true [9007199254740993; 5]%Z [9007199254740993; 9007199254740992]%Z = true
+  /\ match_z true false false [9007199254740993; 5]%Z [9007199254740993; 9007199254740992]%Z = Ok ([0], [0])
+  /\ unique_values_with zeqb [1; 3; 0; 2] [5; 1; 5; 3]%Z = Ok [1; 3; 5]%Z
+  /\ unique_values_with zeqb [1; 0; 2; 3] [5; 1; 5; 3]%Z = Ok [1; 5; 3]%Z   (* not a sorting permutation: no claim *)
+  /\ rem_dup_with zeqb [1; 0; 2] [5; 1; 5]%Z (map (fun f => 2 * f + 18446744073709551615)%Z [3; 2; 7]%Z)
+      = rem_dup_with zeqb [1; 0; 2] [5; 1; 5]%Z [3; 2; 7]%Z
+  /\ run Z zltb zeqb tt [CUnique Z false [1; 0; 2] [5; 1; 5]%Z true; CMatch Z false ClsNum false [3; 1]%Z [1]%Z]
+      = [AUnique Z (Ok (UVals [1; 5]%Z)); AMatch Z (Ok ([1], [0]))].
 Proof. repeat split; vm_compute; reflexivity. Qed.
